@@ -154,7 +154,8 @@ func (sb sbix) glyphData(gid gID, xPpem, yPpem uint16) (GlyphBitmap, error) {
 		return GlyphBitmap{}, fmt.Errorf("no glyph %d in 'sbix' table for resolution (%d, %d)", gid, xPpem, yPpem)
 	}
 
-	out := GlyphBitmap{Data: glyph.Data}
+	// the image is a part of the table of the (shared) font: the caller gets its own copy
+	out := GlyphBitmap{Data: append([]byte(nil), glyph.Data...)}
 	var err error
 	out.Width, out.Height, out.Format, err = decodeBitmapConfig(glyph)
 
@@ -178,7 +179,8 @@ func (bt bitmap) glyphData(gid gID, xPpem, yPpem uint16) (GlyphBitmap, error) {
 	}
 
 	out := GlyphBitmap{
-		Data:   glyph.image,
+		// the image is a part of the table of the (shared) font: the caller gets its own copy
+		Data:   append([]byte(nil), glyph.image...),
 		Width:  int(glyph.metrics.Width),
 		Height: int(glyph.metrics.Height),
 	}
@@ -230,6 +232,7 @@ func (s svg) glyphData(gid gID) (GlyphSVG, bool) {
 	}
 
 	// un-compress if needed
+	compressed := false
 	if r, err := gzip.NewReader(bytes.NewReader(data)); err == nil {
 		// bound the size of the document by the size of its compressed form:
 		// an SVG document is far from the maximum ratio of the deflate format (about 1000)
@@ -240,7 +243,12 @@ func (s svg) glyphData(gid gID) (GlyphSVG, bool) {
 				return GlyphSVG{}, false
 			}
 			data = buf.Bytes()
+			compressed = true
 		}
+	}
+	if !compressed {
+		// a plain document is a part of the table of the (shared) font: the caller gets its own copy
+		data = append([]byte(nil), data...)
 	}
 
 	return GlyphSVG{Source: data}, true
